@@ -336,7 +336,7 @@ def run_unit(unit, tier, seed):
             os.remove(mpath)
             if not killed:
                 res['undecided'].append('vacuity guard: built-in negative control %s not detected (%s)' % (mname, tmp['undecided'] or sorted(tmp['failed'])))
-    res['discharged'] = [o for o in res['obligations'] if o not in res['failed']]
+    res['discharged'] = [o for o in res['obligations'] if o not in res['failed'] and o not in res.get('inconclusive', [])]
     res['total_wall_s'] = time.time() - t0
     return res
 
@@ -387,6 +387,14 @@ def _collect(r, res, labels, fnmap, text_lines, canaries, unit, gen_name=None):
         if site and site.get('new_calls') and names == site['label'].split(',') and re.search(r'assertion failed|precondition not satisfied', d.get('message', '')):
             res['undecided'].append('body obligation of %s failed (%s) but the function now also calls %s, whose specifications were not validated with this contract'
                                     % (site['fn'], d.get('message', '')[:60], site['new_calls']))
+            continue
+        # a failed proof inside a function whose loop / exit structure is not the one its loop contracts were written for is no verdict:
+        # the invariants and loop `ensures` of the template describe the old control flow (a `while a && b` split into `while a { if !b { break } .. }`
+        # is the same program and needs a different loop contract)
+        if site and site.get('shape_changed'):
+            res['undecided'].append('an obligation of %s failed (%s), but the loop structure of the function changed since its loop contracts were written (%s): a failed proof is no verdict'
+                                    % (site['fn'], d.get('message', '')[:60], json.dumps(site['shape_changed'])))
+            res.setdefault('inconclusive', []).extend(names)
             continue
         for nm in names:
             res['failed'].setdefault(nm, []).append({
